@@ -14,5 +14,5 @@ Extraction "model.ml"
   ResponderSpec.spec ResponderSpec.chk_C06 ResponderSpec.explained_by ResponderSpec.text_quirks
   ResponderSpec.code_quirks ResponderSpec.wf_input ResponderSpec.clean ResponderSpec.opt_packet_eqb
   IntfDaemon.initial_state IntfDaemon.iterate IntfDaemon.run
-  C18Spec.chk_C18 C18Spec.obs_ok C18Spec.packet_ok C18Spec.addrs_ok C18Spec.sel_states C18Spec.add_seen C18Spec.model_history C18Spec.intf_live C18Spec.order_ok
+  C18Spec.chk_C18 C18Spec.obs_ok C18Spec.packet_ok C18Spec.addrs_ok C18Spec.sel_states C18Spec.add_seen C18Spec.model_history C18Spec.intf_live C18Spec.order_ok C18Spec.last_word_ok C18Spec.del_of_held
   N.eqb N.add N.mul N.land N.div N.modulo.
